@@ -112,7 +112,13 @@ DOM = {
                    b'SENTBEFORE 30-Feb-2020', b'ON 1-jan-2020',
                    b'UID 1:*,1:*', b'0', b'MODSEQ 1', b'BOGUS',
                    b'SUBJECT ' + b'x' * 5000, b'OR (ALL) (NOT (ALL))',
-                   b'LARGER ' + BIGNUM, b'UID ' + BIGNUM, BIGNUM],
+                   b'LARGER ' + BIGNUM, b'UID ' + BIGNUM, BIGNUM,
+                   # well-formed UTF-8 where the charset admits it
+                   b'HEADER "X-\xc3\xa9" x', b'HEADER ' + lit(b'X-\xc3\xa9') +
+                   b' x', b'HEADER "\xc3\xa9" "\xc3\xa9"', b'FROM "\xc3\xa9"',
+                   b'BODY "\xc3\xa9"', b'TEXT ' + lit(b'\xc3\xa9'),
+                   b'KEYWORD ' + lit(b'\xc3\xa9'), b'HEADER a "\xc3\xa9"',
+                   b'HEADER "a b" x', b'HEADER "a:" x', b'HEADER "a\\"" x'],
     'idlist': [b'NIL', b'("a" "b")', b'("a")',
                b'(' + b' '.join(b'"k%d" "v"' % i for i in range(61)) + b')',
                b'(a b)', b'("a" NIL)', b'((', b'()', b'nil',
@@ -146,6 +152,8 @@ TEMPLATES = [
     ('selected', b'SEARCH {searchprog}'),
     ('selected', b'UID SEARCH {searchprog}'),
     ('selected', b'SEARCH CHARSET {charset} {searchprog}'),
+    ('selected', b'SEARCH CHARSET UTF-8 {searchprog}'),
+    ('selected', b'UID SEARCH CHARSET utf-8 {searchprog} {searchprog}'),
     ('selected', b'SEARCH {searchprog} {searchprog}'),
     ('selected', b'UID EXPUNGE {set}'),
     ('nonauth', b'ID {idlist}'), ('auth', b'ID {idlist}'),
